@@ -501,37 +501,7 @@ func c08ErrorPaired(c *Ctx, reach map[*ssa.Function]bool) {
 						if ph, ok := u.(*ssa.Phi); ok {
 							// the value enters the join on some edges only: where every such edge already excludes the
 							// failure (taken only when the call succeeded, or after a nil test), the join carries no nil of ours
-							open := false
-							for i, e := range ph.Edges {
-								if e != v {
-									continue
-								}
-								pred := ph.Block().Preds[i]
-								term := pred.Instrs[len(pred.Instrs)-1]
-								g := false
-								if ei >= 0 {
-									g = w.requires(fn, term, errNil(call), true)
-									if !g {
-										if ifi, isIf := term.(*ssa.If); isIf && pred.Succs[0] != pred.Succs[1] {
-											a := w.atom(ifi.Cond)
-											keyVal := !a.Neg
-											if pred.Succs[1] == ph.Block() {
-												keyVal = a.Neg
-											}
-											if errNil(call)(a) && keyVal {
-												g = true
-											}
-										}
-									}
-								}
-								if !g {
-									nilT := func(a Atom) bool { return a.Kind == "nil" && strip(a.X) == strip(v) }
-									g = w.requires(fn, term, nilT, false)
-								}
-								if !g {
-									open = true
-								}
-							}
+							open := w.phiEdgeOpen(fn, ph, v, call, ei)
 							if open {
 								collect(ph, d+1)
 							}
@@ -1055,7 +1025,9 @@ func c08NilEscape(c *Ctx, reach map[*ssa.Function]bool) {
 						case *ssa.ChangeType:
 							walk(x, d+1, iface)
 						case *ssa.Phi:
-							walk(x, d+1, iface)
+							if w.phiEdgeOpen(fn, x, v, call, ei) {
+								walk(x, d+1, iface)
+							}
 						case *ssa.Store:
 							if x.Val != v {
 								continue
@@ -1078,6 +1050,16 @@ func c08NilEscape(c *Ctx, reach map[*ssa.Function]bool) {
 							if x.Value == v {
 								keeps = append(keeps, x)
 								ifaceSeen[x] = iface
+							}
+						case *ssa.Call:
+							// handed to a function of the package that keeps that argument (stores it into a table or object)
+							if cal := x.Call.StaticCallee(); cal != nil && w.isMain(cal) && !x.Call.IsInvoke() {
+								for ai, a := range x.Call.Args {
+									if a == v && ai < len(cal.Params) && w.keepsParam(cal, ai) {
+										keeps = append(keeps, x)
+										ifaceSeen[x] = iface
+									}
+								}
 							}
 						}
 					}
@@ -1270,4 +1252,87 @@ func (w *World) nilIsTyped(fn *ssa.Function, i int) bool {
 		}
 	}
 	return false
+}
+
+
+// keepsParam: fn stores its parameter idx (as it is, or wrapped in an interface) into a field, an element, a map or a
+// package variable - the value outlives the call.
+func (w *World) keepsParam(fn *ssa.Function, idx int) bool {
+	if fn == nil || idx >= len(fn.Params) || fn.Blocks == nil {
+		return false
+	}
+	kept := false
+	seen := map[ssa.Value]bool{}
+	var walk func(v ssa.Value, d int)
+	walk = func(v ssa.Value, d int) {
+		if d > 4 || seen[v] || v.Referrers() == nil {
+			return
+		}
+		seen[v] = true
+		for _, u := range *v.Referrers() {
+			switch x := u.(type) {
+			case *ssa.MakeInterface:
+				walk(x, d+1)
+			case *ssa.ChangeInterface:
+				walk(x, d+1)
+			case *ssa.ChangeType:
+				walk(x, d+1)
+			case *ssa.Phi:
+				walk(x, d+1)
+			case *ssa.Store:
+				if x.Val != v {
+					continue
+				}
+				switch x.Addr.(type) {
+				case *ssa.FieldAddr, *ssa.IndexAddr, *ssa.Global:
+					kept = true
+				}
+			case *ssa.MapUpdate:
+				if x.Value == v {
+					kept = true
+				}
+			}
+		}
+	}
+	walk(fn.Params[idx], 0)
+	return kept
+}
+
+
+// phiEdgeOpen: value v (a result of call, whose error result has index ei, or -1) enters the join ph on some edges;
+// false when every such edge is taken only where the failure of the call was excluded (the call succeeded, or v was
+// tested non-nil), so the join carries no nil of this call.
+func (w *World) phiEdgeOpen(fn *ssa.Function, ph *ssa.Phi, v ssa.Value, call *ssa.Call, ei int) bool {
+	open := false
+	for i, e := range ph.Edges {
+		if e != v {
+			continue
+		}
+		pred := ph.Block().Preds[i]
+		term := pred.Instrs[len(pred.Instrs)-1]
+		g := false
+		if ei >= 0 {
+			g = w.requires(fn, term, errNil(call), true)
+			if !g {
+				if ifi, isIf := term.(*ssa.If); isIf && pred.Succs[0] != pred.Succs[1] {
+					a := w.atom(ifi.Cond)
+					keyVal := !a.Neg
+					if pred.Succs[1] == ph.Block() {
+						keyVal = a.Neg
+					}
+					if errNil(call)(a) && keyVal {
+						g = true
+					}
+				}
+			}
+		}
+		if !g {
+			nilT := func(a Atom) bool { return a.Kind == "nil" && strip(a.X) == strip(v) }
+			g = w.requires(fn, term, nilT, false)
+		}
+		if !g {
+			open = true
+		}
+	}
+	return open
 }
